@@ -23,7 +23,14 @@ ASSUMPTIONS = [
     "the top-level message does not transfer msg.value (as in halmos's own drivers); reference does the same",
 ]
 
-THIS, B1, B2 = 0xAAAA, 0xB1, 0xB2
+THIS, B1, B2, C1 = 0xAAAA, 0xB1, 0xB2, 0xC1
+C1_CODE = "602a5f5260205ff3"  # returns the word 0x2a
+ALIAS_MARKS = ("EXTCODESIZE', ('x'", "EXTCODEHASH', ('x'", "balance', ('x'", "callx")
+
+
+def uses_alias(stmts):
+    r = repr(stmts)
+    return any(m in r for m in ALIAS_MARKS)
 D = [0, 1, 2, 32, 2**255, 2**256 - 1]
 
 
@@ -40,7 +47,7 @@ def mk_spec(stmts, layout="solidity", extra_options=None, with_labels=False):
     code, labels = grammar.build(stmts, with_labels=True)
     sym_caller = mentions(stmts, "'caller'")
     sym_v = mentions(stmts, "'v'")
-    sym_bal = mentions(stmts, "balance") or mentions(stmts, "SELFBALANCE")
+    sym_bal = (mentions(stmts, "balance") or mentions(stmts, "SELFBALANCE")) and not uses_alias(stmts)
     opts = {"storage_layout": layout}
     opts.update(extra_options or {})
     spec = {
@@ -56,6 +63,9 @@ def mk_spec(stmts, layout="solidity", extra_options=None, with_labels=False):
         "calldata": [["sym", "x", 32], ["sym", "y", 32]],
         "options": opts,
     }
+    if uses_alias(stmts):
+        spec["accounts"][hex(C1)] = {"code": C1_CODE, "balance": 3}
+        spec["alias"] = True
     return (spec, labels) if with_labels else spec
 
 
@@ -68,6 +78,8 @@ def mk_grid(spec):
     if isinstance(spec["value"], list):
         syms["v"] = 256
         special["v"] = [0, 1]
+    if spec.get("alias"):
+        special["x"] = D + [THIS, B1, C1, 0xDEAD, (1 << 160) + C1]
     for a in spec["accounts"].values():
         if isinstance(a.get("balance"), list):
             syms[a["balance"][1]] = 256
